@@ -359,7 +359,11 @@ func (s Exons) SplicedLen() int {
 // location match.  If and error occurs it returns the old slice (without the
 // new exons) and the error.
 func (s Exons) Add(exons ...Exon) (Exons, error) {
-	newSlice := append(s, exons...)
+	// Work on a copy: appending into spare capacity of s and sorting in place
+	// would alter s even when the new exons are rejected.
+	newSlice := make(Exons, len(s), len(s)+len(exons))
+	copy(newSlice, s)
+	newSlice = append(newSlice, exons...)
 	sort.Sort(newSlice)
 	for i, e := range newSlice {
 		if i != 0 && e.Start() < newSlice[i-1].End() {
